@@ -196,6 +196,11 @@ func (h *OperationProvider) getProvisionalFiles(provisionalIndexURI string, alte
 		return nil, errors.Errorf("provisional index file is missing chunk file URI")
 	}
 
+	// only one chunk file per batch is supported: further chunk entries would be neither validated nor read
+	if len(files.ProvisionalIndex.Chunks) > 1 {
+		return nil, errors.Errorf("provisional index file has %d chunk file URIs: only one is supported", len(files.ProvisionalIndex.Chunks))
+	}
+
 	chunkURI := files.ProvisionalIndex.Chunks[0].ChunkFileURI
 	files.Chunk, err = h.getChunkFile(chunkURI, alternateSources...)
 	if err != nil {
